@@ -12,12 +12,14 @@ Definition w_str (a : N) : bytes := [48; 120; 65 + a].
 Definition w_kec (c : bytes) : bytes := sha256 (1 :: c).
 Definition E0 : env := mkEnv w_raw w_str w_kec sha256.
 
-Definition only_dupkey : cfg := mkCfg true false false false false false.
-Definition only_qnil : cfg := mkCfg false true false false false false.
-Definition only_qcache : cfg := mkCfg false false true false false false.
-Definition only_addstate : cfg := mkCfg false false false true false false.
-Definition only_orphan : cfg := mkCfg false false false false true false.
-Definition only_rbhead : cfg := mkCfg false false false false false true.
+Definition only_dupkey : cfg := mkCfg true false false false false false false false.
+Definition only_qnil : cfg := mkCfg false true false false false false false false.
+Definition only_qcache : cfg := mkCfg false false true false false false false false.
+Definition only_addstate : cfg := mkCfg false false false true false false false false.
+Definition only_orphan : cfg := mkCfg false false false false true false false false.
+Definition only_rbhead : cfg := mkCfg false false false false false true false false.
+Definition only_getcommitted : cfg := mkCfg false false false false false false true false.
+Definition only_setcodenil : cfg := mkCfg false false false false false false false true.
 
 (** P_b on the model's own trace: None = the trace agrees with the specification *)
 Definition pb_model (strict : bool) (c : cfg) (ops : list op) : option N :=
@@ -148,15 +150,24 @@ Definition c1 : val := Some [99; 49].
 Definition h_setcode_nil : list op :=
   [SetCode 0 c1; Flush; Commit 1; SetCode 0 None; GetCode 0; Flush; Commit 2; GetCode 0; Reopen; GetCode 0].
 Lemma setcode_nil_refuted :
-  map (fun i => nth i (snd (run E0 cfg_fixed st0 h_setcode_nil)) ONone) [4; 7; 9]%nat =
+  map (fun i => nth i (snd (run E0 only_setcodenil st0 h_setcode_nil)) ONone) [4; 7; 9]%nat =
   [OS (SVal c1); OS (SVal None); OS (SVal c1)] /\
-  pb_model false cfg_fixed h_setcode_nil = Some 4.
+  pb_model false only_setcodenil h_setcode_nil = Some 4.
 Proof. split; vm_compute; reflexivity. Qed.
+Lemma setcode_nil_fixed :
+  map (fun i => nth i (snd (run E0 cfg_fixed st0 h_setcode_nil)) ONone) [4; 7; 9]%nat =
+  [OS (SVal (Some [])); OS (SVal (Some [])); OS (SVal (Some []))] /\
+  wf_model cfg_fixed h_setcode_nil = true /\ pb_model true cfg_fixed h_setcode_nil = None.
+Proof. split; [| split]; vm_compute; reflexivity. Qed.
 
 (** C13: GetCommittedState returns the zero hash for every non-nil committed value *)
 Definition h_getcommitted : list op := [SetSt 0 ka v1; SetBal 0 5; Flush; Commit 1; GetCommitted 0 ka].
-Lemma getcommitted_refuted : pb_model false cfg_fixed h_getcommitted = Some 4.
+Lemma getcommitted_refuted : pb_model false only_getcommitted h_getcommitted = Some 4.
 Proof. vm_compute. reflexivity. Qed.
+Lemma getcommitted_fixed :
+  nth 4 (snd (run E0 cfg_fixed st0 h_getcommitted)) ONone = OS (SVal v1) /\
+  wf_model cfg_fixed h_getcommitted = true /\ pb_model true cfg_fixed h_getcommitted = None.
+Proof. split; [| split]; vm_compute; reflexivity. Qed.
 
 (** C13 (strict reading): the existence flag of a key whose last written value is empty depends
     on the layer that answers.  Written in-block: exists; after the commit: does not exist. *)
